@@ -109,6 +109,7 @@ func cmdCheck(args []string) int {
 	}
 	sort.Strings(keys)
 	ctxs := map[string]*FnCtx{}
+	var coverCtx []*FnCtx
 	for _, k := range keys {
 		spec := e.Specs.Funcs[k]
 		fn := e.byKey[k]
@@ -154,22 +155,34 @@ func cmdCheck(args []string) int {
 		}
 		sort.Strings(notes)
 		fnsUnder = append(fnsUnder, map[string]any{"function": k, "safety_obligations": nK1, "contract_obligations": nK2, "abstractions": notes, "contract_at": spec.Where})
-		// vacuity cover: some return must be reachable under requires + invariants
-		cov := "no-return"
-		for _, r := range c.retSt {
-			s := c.script(nil, true, r.Block, r.Guard)
-			res := runSolver("z3-new", s, 3*time.Second, false)
-			if res.Status != "unsat" {
-				cov = "reachable(" + res.Status + ")"
-				break
+		coverCtx = append(coverCtx, c)
+	}
+	// vacuity covers (parallel): some return must be reachable under requires + invariants
+	covRes := make([]string, len(coverCtx))
+	var covJobs []func()
+	for i, c := range coverCtx {
+		i, c := i, c
+		covJobs = append(covJobs, func() {
+			cov := "no-return"
+			for _, r := range c.retSt {
+				s := c.script(nil, true, r.Block, r.Guard)
+				res := runSolver("z3-new", s, 2*time.Second, false)
+				if res.Status != "unsat" {
+					cov = "reachable(" + res.Status + ")"
+					break
+				}
+				cov = "unsat"
 			}
-			cov = "unsat"
-		}
-		if cov == "unsat" {
+			covRes[i] = cov
+		})
+	}
+	dischargeAll(covJobs, 16)
+	for i, c := range coverCtx {
+		if covRes[i] == "unsat" {
 			vacuous++
-			fmt.Printf("VACUOUS %s: no return is reachable under its requires/invariants\n", k)
+			fmt.Printf("VACUOUS %s: no return is reachable under its requires/invariants\n", c.Name)
 		}
-		covers = append(covers, k+": "+cov)
+		covers = append(covers, c.Name+": "+covRes[i])
 	}
 	// 2. property-specific structural / table obligations
 	for _, pj := range propertyProviders(e, P, *tier) {
